@@ -283,6 +283,35 @@ func (c *semCtx) symbol(name string, t types.Type) semVal {
 	return c.unsupported("a value of type %s", t)
 }
 
+// zeroValue is the zero value of a Go type in its value domain.
+func (c *semCtx) zeroValue(t types.Type) semVal {
+	zero := func(string) string { return "0" }
+	switch sortOf(t) {
+	case "Int":
+		return semVal{Sort: "Int", T: "0"}
+	case "String":
+		return semVal{Sort: "String", T: `""`}
+	case "Bytes":
+		return semVal{Sort: "Bytes", T: `""`}
+	case "Bool":
+		return semVal{Sort: "Bool", T: "false"}
+	case "Float":
+		return semVal{Sort: "Float", T: "(_ +zero 11 53)"}
+	case "Ref":
+		return semVal{Sort: "Ref", T: "0"}
+	case "Map":
+		return semVal{Sort: "Map", Len: "0", At: zero, Nil: "true"}
+	case "Slice":
+		switch u := t.Underlying().(type) {
+		case *types.Array:
+			return semVal{Sort: "Slice", Len: fmt.Sprint(u.Len()), At: zero}
+		case *types.Slice:
+			return semVal{Sort: "Slice", Len: "0", At: zero, Nil: "true"}
+		}
+	}
+	return c.unsupported("the zero value of %s", t)
+}
+
 func (c *semCtx) constVal(tv types.TypeAndValue) (semVal, bool) {
 	if tv.Value == nil {
 		return semVal{}, false
@@ -354,6 +383,31 @@ func (c *semCtx) eval(e ast.Expr) semVal {
 	case *ast.SelectorExpr:
 		if sel, ok := c.info.Selections[e]; ok && sel.Kind() == types.FieldVal {
 			k := c.key(e)
+			base := e.X
+			for {
+				if p, ok := base.(*ast.ParenExpr); ok {
+					base = p.X
+					continue
+				}
+				break
+			}
+			var ptr *ast.Ident
+			if st, ok := base.(*ast.StarExpr); ok {
+				ptr, _ = st.X.(*ast.Ident)
+			} else if id, ok := base.(*ast.Ident); ok {
+				if _, isPtr := c.info.Types[id].Type.Underlying().(*types.Pointer); isPtr {
+					ptr = id
+				}
+			}
+			if ptr != nil {
+				if _, isPtr := c.info.Types[ptr].Type.Underlying().(*types.Pointer); isPtr {
+					pv := c.eval(ptr)
+					if pv.Sort == "Ref" {
+						c.panicIf("(= " + pv.T + " 0)")
+					}
+					k = ptr.Name + "->" + e.Sel.Name
+				}
+			}
 			if v, ok := c.state[k]; ok {
 				return v
 			}
@@ -361,6 +415,24 @@ func (c *semCtx) eval(e ast.Expr) semVal {
 		}
 		return c.unsupported("selector %s", c.key(e))
 	case *ast.StarExpr:
+		if call, ok := e.X.(*ast.CallExpr); ok && len(call.Args) == 1 {
+			if id, ok := call.Fun.(*ast.Ident); ok {
+				if b, isB := c.info.Uses[id].(*types.Builtin); isB && b.Name() == "new" {
+					return c.zeroValue(c.info.Types[call.Args[0]].Type) // *new(T)
+				}
+			}
+		}
+		if id, ok := e.X.(*ast.Ident); ok {
+			if pt, ok := c.info.Types[id].Type.Underlying().(*types.Pointer); ok {
+				if _, isArr := pt.Elem().Underlying().(*types.Array); isArr {
+					v := c.eval(id) // the array behind the pointer; a nil pointer panics
+					if v.Nil != "" {
+						c.panicIf(v.Nil)
+					}
+					return semVal{Sort: "Slice", Len: v.Len, At: v.At}
+				}
+			}
+		}
 		k := c.key(e)
 		if v, ok := c.state[k]; ok {
 			return v
@@ -442,6 +514,10 @@ func (c *semCtx) eval(e ast.Expr) semVal {
 		}
 		c.panicIf(fmt.Sprintf("(or (< %s 0) (> %s %s) (> %s (str.len %s)))", lo, lo, hi, hi, x.T))
 		return semVal{Sort: x.Sort, T: fmt.Sprintf("(str.substr %s %s (- %s %s))", x.T, lo, hi, lo)}
+	case *ast.CompositeLit:
+		if len(e.Elts) == 0 {
+			return c.zeroValue(tv.Type) // T{}
+		}
 	}
 	return c.unsupported("%T", e)
 }
@@ -667,6 +743,9 @@ func (c *semCtx) call(e *ast.CallExpr) semVal {
 	if tvFun.IsType() && len(e.Args) == 1 {
 		x := c.eval(e.Args[0])
 		to := sortOf(tvFun.Type)
+		if x.Sort == "Nil" {
+			return c.zeroValue(tvFun.Type) // T(nil)
+		}
 		switch {
 		case to == x.Sort:
 			return x
